@@ -39,6 +39,62 @@ inline std::vector<CtorOp> ctor_ops(bool wide) {
       delete_module_info(m);
       return h; });
   }
+  // a tour of the module entry points on a module that lives only for the tour (fixed exponents and parameters, so that two tours on
+  // modules of different dimension make the same calls): what one object leaves behind - a cache keyed on its address, a table it
+  // registered - must not reach the next object, even when the allocator places that one at the very same address
+  for (uint64_t N : std::vector<uint64_t>{8, 16, 32}) for (int t = 0; t < 2; ++t)
+    add(sfmt("new_module_info(%s,N=%llu) + tour of the element-wise entry points (rotate, automorphism, add, normalize; in and out of place) + delete_module_info", t ? "NTT120" : "FFT64", (unsigned long long)N), [N, t] {
+      MODULE* m = new_module_info(N, t ? NTT120 : FFT64);
+      GBuf a(3 * N * 8, 8), b(3 * N * 8, 16), r(3 * N * 8, 24), tmp(vec_znx_normalize_base2k_tmp_bytes(m) + 64, 0);
+      for (uint64_t i = 0; i < 3 * N; ++i) { a.as<int64_t>()[i] = probe62(i + 3) >> 8; b.as<int64_t>()[i] = probe62(i + 1003) >> 8; }
+      uint64_t h = 0xcbf29ce484222325ull;
+      vec_znx_rotate(m, 3, r.as<int64_t>(), 3, N, a.as<int64_t>(), 3, N); h = ct_hash(r, h);
+      vec_znx_automorphism(m, 5, r.as<int64_t>(), 3, N, a.as<int64_t>(), 2, N); h = ct_hash(r, h);
+      vec_znx_automorphism(m, 5, r.as<int64_t>(), 3, N, r.as<int64_t>(), 3, N); h = ct_hash(r, h);
+      vec_znx_rotate(m, 3, r.as<int64_t>(), 3, N, r.as<int64_t>(), 3, N); h = ct_hash(r, h);
+      vec_znx_add(m, r.as<int64_t>(), 3, N, a.as<int64_t>(), 3, N, b.as<int64_t>(), 2, N); h = ct_hash(r, h);
+      vec_znx_sub(m, r.as<int64_t>(), 2, N, r.as<int64_t>(), 2, N, b.as<int64_t>(), 3, N); h = ct_hash(r, h);
+      vec_znx_negate(m, r.as<int64_t>(), 3, N, b.as<int64_t>(), 3, N); h = ct_hash(r, h);
+      vec_znx_normalize_base2k(m, 13, r.as<int64_t>(), 2, N, a.as<int64_t>(), 3, N, tmp.p); h = ct_hash(r, h);
+      if (!t) {
+        VEC_ZNX_BIG* x = new_vec_znx_big(m, 3); VEC_ZNX_BIG* y = new_vec_znx_big(m, 3);
+        vec_znx_big_add_small2(m, x, 3, a.as<int64_t>(), 3, N, b.as<int64_t>(), 3, N);
+        vec_znx_big_automorphism(m, 5, y, 3, x, 3); vec_znx_big_rotate(m, 3, x, 3, y, 2);
+        vec_znx_big_automorphism(m, 5, x, 3, x, 3); vec_znx_big_rotate(m, 3, y, 3, y, 3);
+        GBuf t2(vec_znx_big_normalize_base2k_tmp_bytes(m) + 64, 0);
+        vec_znx_big_normalize_base2k(m, 13, r.as<int64_t>(), 3, N, x, 3, t2.p); h = ct_hash(r, h);
+        vec_znx_big_normalize_base2k(m, 13, r.as<int64_t>(), 3, N, y, 3, t2.p); h = ct_hash(r, h);
+        delete_vec_znx_big(x); delete_vec_znx_big(y);
+      }
+      delete_module_info(m);
+      return h; });
+  // two objects of one kind with overlapping lifetimes: deleting the first must leave the second intact
+  add("two q120 product precomps of each kind, the first deleted before the second is used", [] {
+    auto* pa1 = q120_new_vec_mat1col_product_baa_precomp(); auto* pa = q120_new_vec_mat1col_product_baa_precomp();
+    auto* pb1 = q120_new_vec_mat1col_product_bbb_precomp(); auto* pb = q120_new_vec_mat1col_product_bbb_precomp();
+    auto* pc1 = q120_new_vec_mat1col_product_bbc_precomp(); auto* pc = q120_new_vec_mat1col_product_bbc_precomp();
+    q120_delete_vec_mat1col_product_baa_precomp(pa1); q120_delete_vec_mat1col_product_bbb_precomp(pb1); q120_delete_vec_mat1col_product_bbc_precomp(pc1);
+    GBuf scratch(512, 0); memset(scratch.p, 0x5A, 512);
+    GBuf r(32, 8), x(32 * 5, 16), y(32 * 5, 24); for (size_t i = 0; i < 20; ++i) { x.as<uint64_t>()[i] = (uint64_t)probe62(i) & 0xFFFFFFFFull; y.as<uint64_t>()[i] = (uint64_t)probe62(i + 50) & 0xFFFFFFFFull; }
+    q120_vec_mat1col_product_baa_ref(pa, 5, (q120b*)r.p, (q120a*)x.p, (q120a*)y.p); uint64_t h = ct_hash(r);
+    q120_vec_mat1col_product_bbb_ref(pb, 5, (q120b*)r.p, (q120b*)x.p, (q120b*)y.p); h = ct_hash(r, h);
+    q120_vec_mat1col_product_bbc_ref(pc, 5, (q120b*)r.p, (q120b*)x.p, (q120c*)y.p); h = ct_hash(r, h);
+    q120_delete_vec_mat1col_product_baa_precomp(pa); q120_delete_vec_mat1col_product_bbb_precomp(pb); q120_delete_vec_mat1col_product_bbc_precomp(pc);
+    return h; });
+  add("two modules of one dimension (both types), the first deleted before the second is used", [] {
+    uint64_t h = 0xcbf29ce484222325ull;
+    for (int t = 0; t < 2; ++t) {
+      const uint64_t N = 16;
+      MODULE* m1 = new_module_info(N, t ? NTT120 : FFT64); MODULE* m = new_module_info(N, t ? NTT120 : FFT64);
+      delete_module_info(m1);
+      GBuf a(N * 8, 8), d((t ? 32 : 8) * N, 16), b((t ? 16 : 8) * N, 24), tmp(vec_znx_idft_tmp_bytes(m) + 64, 0);
+      for (uint64_t i = 0; i < N; ++i) a.as<int64_t>()[i] = small_val(i + 3, 1 << 20);
+      vec_znx_dft(m, (VEC_ZNX_DFT*)d.p, 1, a.as<int64_t>(), 1, N);
+      vec_znx_idft(m, (VEC_ZNX_BIG*)b.p, 1, (VEC_ZNX_DFT*)d.p, 1, tmp.p);
+      h = ct_hash(d, ct_hash(b, h));
+      delete_module_info(m);
+    }
+    return h; });
   if (wide) for (uint64_t N : {8, 64, 1024}) {
     // the FFT64 product objects: prepared scalar, prepared matrix, normalisation through a fresh module
     add(sfmt("new_module_info(FFT64,N=%llu) + svp_prepare/apply + vmp_prepare/apply + big_normalize + delete", (unsigned long long)N), [N] {
